@@ -135,6 +135,10 @@ class Ctl:
         self.released = 0         # 'finish' ops that opened the gate for a waiting handler
         self.accepted = 0         # queued requests answered without a fault
         self.worker_notifs = 0    # notify_operation calls completed by the worker thread
+        self.busy = False         # the worker holds an item it took from the queue
+        self.get_calls = 0        # calls of the instrumented queue.get
+        self.taken = 0            # items the worker took from the queue
+        self.completed = 0        # items the worker has finished with (it came back for the next one)
         self.gate = threading.Semaphore(0)
         self.gating = True
         self.queued_plans = collections.defaultdict(collections.deque)
@@ -177,8 +181,24 @@ class ProvWorld:
         self.reg.check_invocation_timeouts = lambda: None      # no timeout handlers firing from the idle worker
         self.worker._set_service = NotifyProxy(self.worker._set_service, self.ctl)
         self.queue_cap = self.worker._operations_queue.maxsize
+        q = self.worker._operations_queue
+        ctl = self.ctl
+
+        def get(block=True, timeout=None, _q=q):
+            # the worker coming back for the next item has finished with the previous one
+            with ctl.cond:
+                ctl.get_calls += 1
+                if ctl.busy:
+                    ctl.busy = False
+                    ctl.completed += 1
+                ctl.cond.notify_all()
+            item = queue.Queue.get(_q, block, timeout)
+            with ctl.cond:
+                ctl.busy = True
+                ctl.taken += 1
+            return item
+        q.get = get
         if virtual_queue_timeout:
-            q = self.worker._operations_queue
 
             def put(item, block=True, timeout=None, _q=q):
                 # the timeout of enqueue_operation elapses at once: a full queue stays full
@@ -217,6 +237,10 @@ class ProvWorld:
         self.provider_netloc = self.w.provider_server.netloc
         self.futures = []
         self._proposals = {}
+        # the worker was started before its queue was instrumented: wait until it has left the get() call it was in (<= 1 s)
+        with ctl.cond:
+            if not ctl.cond.wait_for(lambda: ctl.get_calls > 0, 5):
+                raise SystemExit('the SCO worker does not poll its queue')
 
     @staticmethod
     def _find_component_handler(product):
@@ -355,12 +379,13 @@ class ProvWorld:
     def settle(self, timeout=20.0):
         ctl = self.ctl
         with ctl.cond:
+            # stable: every released operation is finished with (its last report is out, the worker came back), and
+            # the next accepted one, if any, waits at the gate (its Wait/Start reports are out)
             ok = ctl.cond.wait_for(
-                lambda: ctl.entered == min(ctl.accepted, ctl.released + 1)
-                and ctl.worker_notifs == 2 * ctl.entered + ctl.released, timeout)
+                lambda: ctl.entered == min(ctl.accepted, ctl.released + 1) and ctl.completed == ctl.released, timeout)
         if not ok:
             ctl.errors.append(f'settle timeout entered={ctl.entered} accepted={ctl.accepted} released={ctl.released} '
-                              f'notifs={ctl.worker_notifs}')
+                              f'completed={ctl.completed} notifs={ctl.worker_notifs}')
         return ok
 
     def find_exchange(self, n0, client_names):
@@ -533,7 +558,7 @@ def run_conc(spec):
         # wait for the worker to finish its last notification to the other subscribers
         n_queued = sum(1 for calls in rnd for c in calls if c[1] and c[2] == 'queued')
         with pw.ctl.cond:
-            pw.ctl.cond.wait_for(lambda: pw.ctl.worker_notifs >= 3 * n_queued, 20)
+            pw.ctl.cond.wait_for(lambda: pw.ctl.completed >= n_queued, 20)
         reports = [pw.parts_for(ci, n0) for ci in range(len(rnd))]
         wire = []
         for ex in pw.w.net.log[n0:]:
